@@ -20,8 +20,9 @@ historical control flow, kept only so that the old defect stays stated (theorems
 The `timeoutCounter` has its own mutex `tc.mutex`, locked and `defer`-unlocked at the top of every one of
 its methods and never left locked; each of its methods is one atomic step here.
 
-`setPhase` (entity.go:724) is `if state > load(phase) { store(phase, state) }`: one step here when it runs
-alone; the concurrent model at the end of this file splits it into its two atomic steps.
+`setPhase` (entity.go:725) is a compare-and-swap loop that raises the phase to `state` unless it is already that
+high: one step (`setPhaseF`) here when it runs alone; the concurrent model at the end of this file splits it into
+its atomic `load` and `cas` steps.
 
 Simplifications (the correspondence run keeps inside them):
 * a block is `(hash, RoundRank)`; `Weight()` is `2^-rank`, so for the ranks the generator uses
@@ -149,7 +150,7 @@ def rlocked {α} (f : D → α × D) : M α :=
 
 /-! ### bodies -/
 
-/-- `setPhase`: `if state > r.getState() { store }` -/
+/-- `setPhase` run alone: the phase becomes `max phase state` -/
 def setPhaseF (p : Int) (s : D) : D := if p > s.phase then { s with phase := p } else s
 
 def wrap64 (x : Int) : Int := (x + 9223372036854775808) % 18446744073709551616 - 9223372036854775808
@@ -378,24 +379,36 @@ def newRound (number cap : Int) (self : Nat) : R := { d := { number := number, c
 
 /-! ## Concurrent model of the phase cell
 
-Shared: the phase word (accessed with atomic loads/stores only) and `r.mutex`. A thread is the list of
-atomic instructions it still has to execute plus one register (the value its last `load` saw).
-`setPhaseI v` is the exported, unlocked `SetPhase(v)`; `lockedSetPhaseI v` is `setPhase(v)` as executed
-inside `AddNotarizedBlock`/`AddVRFShare` (under `r.mutex`); `resetI v` is `ResetPhase(v)`. A schedule is
-the list of thread ids that take the next step; a thread whose next instruction is `lock` while the mutex
-is held does not move (it stays blocked), a finished thread does not move. -/
+Shared: the phase word (accessed with atomic operations only) and `r.mutex`. A thread is the list of atomic
+instructions it still has to execute plus one register (the value its last `load` saw).
+
+`setPhase` (entity.go:725, since repo commit 8870ba0) is a compare-and-swap loop:
+`for { cur := Load(phase); if state <= cur || CompareAndSwap(phase, cur, state) { return } }`. Its atomic accesses
+to shared memory are the `load` and the `cas`; the comparison `state <= cur` in between is thread-local and is
+folded into the `cas` step: `cas v` returns when `v <= reg`, stores `v` and returns when the word still equals `reg`,
+and otherwise puts `load · cas v` back in front of the thread's program (the retry).
+`setPhaseI v` is the exported, unlocked `SetPhase(v)`; `lockedSetPhaseI v` is `setPhase(v)` as executed inside
+`AddNotarizedBlock`/`AddVRFShare` (under `r.mutex`); `resetI v` is `ResetPhase(v)` (the explicit reset, an atomic
+store). HISTORICAL: before 8870ba0 `setPhase` was `load · storeIfGt v` (`setPhaseOldI`, `lockedSetPhaseOldI`),
+kept only so that the old lost update stays stated.
+A schedule is the list of thread ids that take the next step; a thread whose next instruction is `lock` while the
+mutex is held does not move (it stays blocked), a finished thread does not move. -/
 namespace Conc
 
 inductive Instr where
   | lock | unlock
   | load
-  | storeIfGt (v : Int)   -- `if v > reg { store v }`
+  | cas (v : Int)         -- `if v <= reg { return }; if CAS(phase, reg, v) { return }; retry`
+  | storeIfGt (v : Int)   -- HISTORICAL (before 8870ba0): `if v > reg { store v }`
   | reset (v : Int)
 deriving DecidableEq, Repr
 
-def setPhaseI (v : Int) : List Instr := [.load, .storeIfGt v]
-def lockedSetPhaseI (v : Int) : List Instr := [.lock, .load, .storeIfGt v, .unlock]
+def setPhaseI (v : Int) : List Instr := [.load, .cas v]
+def lockedSetPhaseI (v : Int) : List Instr := [.lock, .load, .cas v, .unlock]
 def resetI (v : Int) : List Instr := [.reset v]
+/-- HISTORICAL: `setPhase` before repo commit 8870ba0 -/
+def setPhaseOldI (v : Int) : List Instr := [.load, .storeIfGt v]
+def lockedSetPhaseOldI (v : Int) : List Instr := [.lock, .load, .storeIfGt v, .unlock]
 
 structure Thread where
   rem : List Instr
@@ -417,6 +430,10 @@ def cstep (s : CS) (i : Nat) : CS :=
   | .lock :: rest => if s.mutex then s else { s with mutex := true, thr := upd s.thr i { t with rem := rest } }
   | .unlock :: rest => { s with mutex := false, thr := upd s.thr i { t with rem := rest } }
   | .load :: rest => { s with thr := upd s.thr i { rem := rest, reg := s.phase } }
+  | .cas v :: rest =>
+    if v ≤ t.reg then { s with thr := upd s.thr i { t with rem := rest } }
+    else if s.phase = t.reg then { s with phase := v, thr := upd s.thr i { t with rem := rest } }
+    else { s with thr := upd s.thr i { t with rem := .load :: .cas v :: rest } }
   | .storeIfGt v :: rest =>
     { s with phase := if v > t.reg then v else s.phase, thr := upd s.thr i { t with rem := rest } }
   | .reset v :: rest => { s with phase := v, thr := upd s.thr i { t with rem := rest } }
